@@ -35,6 +35,9 @@ type FileSpec struct {
 	// Collide: offsets in Written at (or after) which three neighbouring bytes are changed by +1,-2,+1:
 	// the block differs from the signed one but has the same rolling (weak) hash
 	Collide []int `json:"collide,omitempty"`
+	// CloseFails (wound modes): the underlying pool's writer for this file accepts every byte and then fails
+	// its Close (disk full on the last flush); the wounds of the file are owed all the same
+	CloseFails bool `json:"close_fails,omitempty"`
 }
 
 func (f FileSpec) writtenBytes() []byte {
@@ -56,6 +59,7 @@ type recPool struct {
 	c      *tlc.Container
 	got    map[int64]*bytes.Buffer
 	closed map[int64]int
+	failCl map[int64]bool
 }
 
 func (p *recPool) GetSize(i int64) int64                        { return p.c.Files[i].Size }
@@ -69,7 +73,13 @@ type recW struct {
 }
 
 func (w *recW) Write(b []byte) (int, error) { return w.p.got[w.i].Write(b) }
-func (w *recW) Close() error                { w.p.closed[w.i]++; return nil }
+func (w *recW) Close() error {
+	w.p.closed[w.i]++
+	if w.p.failCl[w.i] {
+		return fmt.Errorf("close of file %d: no space left on device", w.i)
+	}
+	return nil
+}
 func (p *recPool) GetWriter(i int64) (io.WriteCloser, error) {
 	p.got[i] = new(bytes.Buffer)
 	return &recW{p, i}, nil
@@ -105,7 +115,12 @@ func check(s Spec) h.Result {
 		}
 	}
 	si := &pwr.SignatureInfo{Container: c, Hashes: hs}
-	inner := &recPool{c: c, got: map[int64]*bytes.Buffer{}, closed: map[int64]int{}}
+	inner := &recPool{c: c, got: map[int64]*bytes.Buffer{}, closed: map[int64]int{}, failCl: map[int64]bool{}}
+	if s.Mode != "error" {
+		for i, f := range s.Files {
+			inner.failCl[int64(i)] = f.CloseFails
+		}
+	}
 	vp := &pwr.ValidatingPool{Pool: inner, Container: c, Signature: si}
 	var got []*pwr.Wound
 	var done chan struct{}
@@ -226,6 +241,10 @@ func check(s Spec) h.Result {
 				return h.Result{Fail: fmt.Sprintf("%s: inner writer closed %d times", name, inner.closed[int64(i)]), Classes: cl}
 			}
 		} else {
+			if inner.failCl[int64(i)] {
+				cl = append(cl, "inner-pool:close-fails")
+				cerr = nil // whether Close reports it is not C18's business; the wounds are
+			}
 			if werr != nil || cerr != nil {
 				return h.Result{Fail: fmt.Sprintf("%s: wound mode must not fail writes: write=%v close=%v", name, werr, cerr), Classes: cl}
 			}
@@ -387,6 +406,7 @@ func genFile(t *rapid.T, i int) FileSpec {
 		f.Slices = []int{1}
 	}
 	f.Keep = rapid.IntRange(0, 2).Draw(t, "keep-writing") == 0
+	f.CloseFails = rapid.IntRange(0, 4).Draw(t, "inner-close-fails") == 0
 	return f
 }
 
